@@ -97,6 +97,7 @@ static hwloc_bitmap_t set_from_hex(const char *s) {
   if (inf) hwloc_bitmap_set_range(b, 4 * n, -1);
   return b;
 }
+static unsigned long st_group_holes, st_group_cut;   /* generator counters (debugging aid) */
 static void hex_of_set(char *dst, size_t cap, hwloc_const_bitmap_t s) {
   if (!s) { snprintf(dst, cap, "-"); return; }
   int inf = hwloc_bitmap_weight(s) == -1;
@@ -297,8 +298,26 @@ static void gen_op(char *line, size_t cap) {
     hwloc_bitmap_t c = hwloc_bitmap_alloc(), n = NULL;
     if (p->arity) {
       unsigned f = rng_below(p->arity), cnt = 1 + rng_below(p->arity - f);
+      if (p->arity >= 3 && rng_chance(40)) {
+        /* any subset of the children, holes included (absorbed siblings separated by untouched ones) */
+        for (unsigned i = 0; i < p->arity; i++) if (rng_chance(50)) hwloc_bitmap_or(c, c, p->children[i]->cpuset);
+        if (hwloc_bitmap_iszero(c)) hwloc_bitmap_or(c, c, p->children[f]->cpuset);
+        st_group_holes++;
+      } else
       for (unsigned i = f; i < f + cnt; i++) hwloc_bitmap_or(c, c, p->children[i]->cpuset);
-      unsigned k = rng_below(10);
+      unsigned k = rng_below(13);
+      if (k >= 10) {
+        /* cuts one more sibling: one PU (first, last or any) of a random child is added or removed -> partial intersection
+         * after whole siblings were absorbed (the refused insert must put everything back where it was) */
+        hwloc_obj_t ch = p->children[rng_below(p->arity)];
+        int w = hwloc_bitmap_weight(ch->cpuset);
+        if (w > 1) {
+          int bit = k == 10 ? hwloc_bitmap_first(ch->cpuset) : k == 11 ? hwloc_bitmap_last(ch->cpuset) : -1;
+          if (bit < 0) { unsigned nth = rng_below((unsigned) w); bit = hwloc_bitmap_first(ch->cpuset); while (nth--) bit = hwloc_bitmap_next(ch->cpuset, bit); }
+          if (hwloc_bitmap_isset(c, bit)) hwloc_bitmap_clr(c, bit); else hwloc_bitmap_set(c, bit);
+          st_group_cut++;
+        }
+      }
       if (k == 0) { int l = hwloc_bitmap_last(root->cpuset); hwloc_bitmap_set(c, rng_below(l + 2)); }            /* may straddle */
       else if (k == 1 && p->arity) { hwloc_bitmap_copy(c, p->cpuset); }                                          /* equal to an existing object */
       else if (k == 2) hwloc_bitmap_zero(c);
